@@ -116,7 +116,7 @@ for _k in ('sphere', 'plane', 'mirror', 'plane_mirror', 'flat_conic', 'flat_coni
 def _setup(c, n, stop, finite, ap='EPD', field='angle'):
     lens, v = arbitrary_lens(c, n, stop=stop, finite_object=finite)
     lens.add_wavelength(0.55, is_primary=True)
-    apv = c.real('ap_value', 0.5, 8.0, positive=True)
+    apv = c.real('ap_value', 0.05, 0.3, positive=True) if ap == 'objectNA' else c.real('ap_value', 0.5, 8.0, positive=True)
     lens.set_aperture(ap, apv)
     lens.set_field_type(field)
     fy = c.real('max_field', 1.0, 20.0, positive=True)
@@ -194,6 +194,10 @@ def _rays_contract(n, stop, finite, ap, field):
             EPD = apv
         elif ap == 'imageFNO':
             EPD = f2 / apv
+        else:
+            # object-space numerical aperture n0 sin(theta) of the marginal ray from the axial object point
+            c.require(apv < n0)
+            EPD = 2 * (EPL - v['z'][0]) * c.val(c.np.tan(c.np.arcsin(c.arr(apv / n0))))
         c.ensure_eq('C04.EPD', c.val(px.EPD()), EPD)
         c.ensure_eq('C04.FNO', c.val(px.FNO()), f2 / EPD)
         # marginal ray = the ABCD image of its launch data
@@ -236,7 +240,8 @@ def _rays_contract(n, stop, finite, ap, field):
 
 for (_n, _s, _f, _a, _fl) in ((4, 1, False, 'EPD', 'angle'), (4, 2, False, 'EPD', 'angle'), (4, 2, False, 'imageFNO', 'angle'),
                               (4, 2, True, 'EPD', 'angle'), (4, 1, True, 'EPD', 'angle'), (5, 2, False, 'EPD', 'angle'),
-                              (4, 2, True, 'EPD', 'object_height'), (4, 1, True, 'EPD', 'object_height')):
+                              (4, 2, True, 'EPD', 'object_height'), (4, 1, True, 'EPD', 'object_height'),
+                              (4, 2, True, 'objectNA', 'object_height'), (4, 1, True, 'objectNA', 'angle')):
     _rays_contract(_n, _s, _f, _a, _fl)
 
 
